@@ -320,6 +320,15 @@ impl Prop for C20 {
                         if !member && cand.to_lowercase() == cand && ec != ea {
                             return Err(("expected ids depend on the proposed id".to_string(), json!({"after_a": ea, "candidate": cand, "after_candidate": ec})));
                         }
+                        // a proposal with upper-case letters: the ids expected for the name, plus (from the lower-case rule) the lower-cased proposal, and nothing else
+                        if !member && cand.to_lowercase() != cand {
+                            let lowered = cand.to_lowercase();
+                            let missing: Vec<&String> = ea.iter().filter(|e| !ec.contains(e)).collect();
+                            let extra: Vec<&String> = ec.iter().filter(|e| !ea.contains(e) && **e != lowered).collect();
+                            if !missing.is_empty() || !extra.is_empty() {
+                                return Err(("expected ids depend on the proposed id|upper-case proposal".to_string(), json!({"after_a": ea, "candidate": cand, "after_candidate": ec, "missing": missing, "extra": extra})));
+                            }
+                        }
                     }
                     Ok(())
                 });
